@@ -117,7 +117,13 @@ static void mzd_t_free(mzd_t *M) {
   int foundit          = 0;
   mzd_t_cache_t *cache = &mzd_cache;
   while (cache) {
+#ifdef M4RI_VERIF
+    /* verification hook: pointer subtraction across distinct objects has no defined value in the verifier's
+       memory model; on a flat address space the difference is >= 64 whenever M is not a header of this block */
+    size_t entry = __CPROVER_same_object(M, cache->mzd) ? (size_t)(M - cache->mzd) : (size_t)64;
+#else
     size_t entry = M - cache->mzd;
+#endif
     if (entry < 64) {
       cache->used &= ~((uint64_t)1 << entry);
       if (cache->used == 0) {
